@@ -11,6 +11,7 @@ suite=$(cd /repo && /venv/bin/python -m pytest -q -p no:cacheprovider --timeout=
 out=$(cd /verif && ./check $pid --tier quick 2>&1 | tail -12)
 rc=$(echo "$out" | grep -c "^VIOLATION")
 git -C /repo checkout -- .
+git -C /verif checkout -- evidence 2>/dev/null   # evidence written under a seeded change is not kept
 echo "demo clean=$clean mutated=$mut ; suite: $suite ; check VIOLATION lines=$rc"
 echo "$out" | grep -v "^KNOWN" | tail -6
 n=$(ls -d /verif/seeded/$pid-* 2>/dev/null | wc -l); n=$((n+1))
